@@ -2,6 +2,7 @@ package main
 
 import (
 	"bytes"
+	"context"
 	"crypto/sha256"
 	"encoding/hex"
 	"encoding/json"
@@ -213,15 +214,32 @@ type devNull struct{}
 
 func (devNull) Write(p []byte) (int, error) { return len(p), nil }
 
+// hangGrace is how long a unit may overrun its deadline. Units poll the deadline between
+// transitions (milliseconds each), so an overrun of minutes means one step never returned.
+const hangGrace = 3 * time.Minute
+
 func runUnit(u unit) (mc.Result, error) {
 	in, _ := json.Marshal(u)
-	cmd := exec.Command(os.Args[0], "scenario")
+	limit := 40 * time.Minute
+	if u.Deadline > 0 {
+		limit = time.Until(time.Unix(u.Deadline, 0)) + hangGrace
+	}
+	ctx, cancel := context.WithTimeout(context.Background(), limit)
+	defer cancel()
+	cmd := exec.CommandContext(ctx, os.Args[0], "scenario")
 	cmd.Stdin = bytes.NewReader(in)
 	cmd.Env = append(os.Environ(), "GOMAXPROCS=2")
 	var stdout, stderr bytes.Buffer
 	cmd.Stdout, cmd.Stderr = &stdout, &stderr
 	err := cmd.Run()
 	var res mc.Result
+	if ctx.Err() == context.DeadlineExceeded {
+		// The code under test did not come back from a call: a finding, like a panic.
+		res = mc.Result{Scenario: u.id(), Exhaustive: false, CapHit: "hang", Counters: map[string]int{}, Outcomes: map[string]int{}, ActionKinds: map[string]int{}}
+		res.Found = append(res.Found, mc.Found{Scenario: u.id(), Violation: mc.Violation{Property: u.Property, Monitor: "hang",
+			Detail: fmt.Sprintf("unit %s was still inside one step %v after its deadline: the code under test does not return (endless loop or deadlock)", u.id(), hangGrace)}})
+		return res, nil
+	}
 	if err != nil {
 		tail := stderr.String()
 		if len(tail) > 3000 {
@@ -293,10 +311,14 @@ func cmdCheck(args []string) int {
 	}
 	wg.Wait()
 
+	// A unit that could not be run to the end (harness panic, e.g. a replay that diverges because the
+	// code under test reads the wall clock) gives no verdict for that unit; the others are still judged.
+	unitErrors := 0
 	for i, err := range errs {
 		if err != nil {
 			fmt.Fprintf(os.Stderr, "ERROR %s: %v\n", units[i].id(), err)
-			return 2
+			unitErrors++
+			results[i] = mc.Result{Scenario: units[i].id(), Exhaustive: false, CapHit: "unit error", Counters: map[string]int{}, Outcomes: map[string]int{}, ActionKinds: map[string]int{}}
 		}
 	}
 	known := loadKnown()
@@ -442,7 +464,7 @@ func cmdCheck(args []string) int {
 		// A livelock is a property of the explored graph (a bottom SCC with a cycle), not of one
 		// step; determinism of the graph is what the replay validation of the search establishes.
 		// A race report is the detector's own observation of two unsynchronised accesses.
-		confirmed := f.Monitor == "livelock" || f.Monitor == "data-race" || confirmReplay(path)
+		confirmed := f.Monitor == "livelock" || f.Monitor == "data-race" || f.Monitor == "hang" || confirmReplay(path)
 		if !confirmed {
 			fmt.Printf("UNSTABLE property=%s monitor=%s replay=%s (did not reproduce 5/5; not reported as violation)\n", prop, f.Monitor, path)
 			unstable = true
@@ -459,8 +481,8 @@ func cmdCheck(args []string) int {
 			exit = 1
 		}
 	}
-	if exit == 0 && unstable {
-		// Something fired that does not reproduce deterministically: no verdict.
+	if exit == 0 && (unstable || unitErrors > 0) {
+		// Something fired that does not reproduce deterministically, or a unit did not run: no verdict.
 		exit = 2
 	}
 	var crossSumm []string
